@@ -35,7 +35,12 @@ THEOREMS = [
     "Ffcx.C06.formIR_accepts",
     "Ffcx.C06.formIR_rejects",
     "Ffcx.C06.formIR_rejects_message",
+    "Ffcx.C06.formIR_rejects_large",
+    "Ffcx.C06.formIR_rejects_large_message",
+    "Ffcx.C06.formIR_ids_in_range",
+    "Ffcx.C06.large_id_boundary",
     "Ffcx.C06.minus_one_only_otherwise",
+    "Ffcx.C06.otherwise_not_folded",
     "Ffcx.C06.explicit_minus_one_rejected",
     "Ffcx.C06.dispatch",
     "Ffcx.Layout.argsortStable_isArgsort",
@@ -197,7 +202,69 @@ def fam_prism_ok():
     return [Term(f * u * v, "cell", None), Term(u * v, "exterior_facet", (1, 2)), Term(3 * u * v, "exterior_facet", None)]
 
 
+def fam_prism_many():
+    """several kernels listed under ONE (type, id): every prism facet integral has two domains (triangle, quadrilateral);
+    explicit ids, a tuple, 'everywhere' and a repeated id with other quadrature metadata side by side"""
+    m, V = corpus.space("prism", "P", 1)
+    u, v = ufl.TrialFunction(V), ufl.TestFunction(V)
+    f = ufl.Coefficient(V)
+    k = ufl.Constant(m)
+    return [
+        Term(f * u * v, "exterior_facet", 1),
+        Term(2 * u * v, "exterior_facet", (1, 2)),
+        Term(3 * k * u * v, "exterior_facet", None),
+        Term(5 * u * v, "exterior_facet", 2, _deg(1)),
+        Term(7 * u * v, "cell", None),
+        Term(11 * f * u * v, "cell", 4),
+    ]
+
+
+def fam_prism_rank1():
+    m, V = corpus.space("prism", "P", 1)
+    v = ufl.TestFunction(V)
+    f, g = ufl.Coefficient(V), ufl.Coefficient(V)
+    return [
+        Term(f * v, "exterior_facet", None),
+        Term(2 * g * v, "exterior_facet", (3, 0)),
+        Term(3 * f * g * v, "exterior_facet", 3),
+        Term(5 * v, "vertex", 2),
+        Term(7 * f * v, "vertex", None),
+    ]
+
+
+def fam_otherwise_explicit():
+    """'otherwise' and explicit ids of the same type coexist: the kernel under an explicit id must add the integrands declared
+    for THAT id only (do_append_everywhere_integrals=False: the everywhere integral is not folded in), theorem otherwise_not_folded"""
+    m, V = corpus.space("triangle", "P", 1)
+    v = ufl.TestFunction(V)
+    f, g = ufl.Coefficient(V), ufl.Coefficient(V)
+    return [
+        Term(f * v, "cell", None),
+        Term(2 * g * v, "cell", 1),
+        Term(3 * v, "cell", (1, 2)),
+        Term(5 * f * v, "exterior_facet", None),
+        Term(7 * v, "exterior_facet", 3),
+        Term(11 * g * v("+"), "interior_facet", None),
+        Term(13 * f("-") * v("-"), "interior_facet", (0, 3)),
+    ]
+
+
+def fam_otherwise_explicit_tet():
+    m, V = corpus.space("tetrahedron", "P", 1)
+    u, v = ufl.TrialFunction(V), ufl.TestFunction(V)
+    f = ufl.Coefficient(V)
+    return [
+        Term(u * v, "cell", None),
+        Term(2 * f * u * v, "cell", (7, 2)),
+        Term(3 * u * v, "exterior_facet", None),
+        Term(5 * f * u * v, "exterior_facet", 7),
+        Term(7 * u * v, "exterior_facet", (7, 1), _deg(1)),
+    ]
+
+
 FAMILIES = [
+    ("prism_many", fam_prism_many), ("prism_rank1", fam_prism_rank1),
+    ("otherwise_explicit", fam_otherwise_explicit), ("otherwise_explicit_tet", fam_otherwise_explicit_tet),
     ("tri_many", fam_tri_many), ("tet_rank1", fam_tet_rank1), ("interval", fam_interval), ("functional", fam_functional),
     ("dropped", fam_dropped), ("rules_shared", fam_rules_shared), ("rules_distinct", fam_rules_distinct),
     ("interleaved", fam_interleaved), ("prism_ds", fam_prism_ds), ("prism_ok", fam_prism_ok),
@@ -277,6 +344,54 @@ def compare_intdata(chk, d, what, groups, perms, impl):
     return ints(counts), delim == "true"
 
 
+def emit_groups(fir):
+    """groups for `(emit …)`: the domain tags of every entry in the order the generator iterates the real set"""
+    return [[(int(i), n, [int(x) for x in dm]) for i, n, dm in zip(fir.subdomain_ids[t], fir.integral_names[t], fir.integral_domains[t])]
+            for t in TYPES]
+
+
+def model_emit(d, fir, perms):
+    """`emitKernels` / `emitIds` / `offsets` / `emit` of the model for a FormIR(-like) object"""
+    ker, ids, offs, rows = d.ask(f"(emit {sx([[int(p) for p in pi] for pi in perms])} {sx(emit_groups(fir))})")
+    return ([f"{n}_{basix.CellType(int(t)).name}" for n, t in ker], ints(ids), ints(offs), [(int(i), n, int(t)) for i, n, t in rows])
+
+
+def check_emit(chk, d, name, fir, perms, what="real"):
+    """(f) `emitKernels` / `emitIds` / `offsets` (Layout.lean: the model of the table emission of C/form.py) vs the initialisers the
+    REAL `ffcx.codegeneration.C.form.generator` writes for this FormIR: `form_integrals_<name>[] = {&<integral>_<celltype>, …}`,
+    `form_integral_ids_<name>[]`, `form_integral_offsets_<name>[]` and their declared lengths (parsed with descr_checks.parse_c_form)."""
+    import ffcx.codegeneration.C.form as cform
+
+    from .. import descr_checks
+
+    mker, mids, moffs, _ = model_emit(d, fir, perms)
+    try:
+        with warnings.catch_warnings():
+            warnings.simplefilter("ignore")
+            text = cform.generator(fir, pipeline.default_options())[1]
+        parsed, decls = descr_checks.parse_c_form(text, fir.name)
+    except Exception as ex:
+        chk.disagree("form_integrals template changed: cannot read the form_integrals / form_integral_ids / form_integral_offsets initialisers",
+                     {"form": name, "error": f"{type(ex).__name__}: {str(ex)[:200]}"})
+        return
+    if isinstance(parsed, tuple):
+        chk.disagree("form_integrals template changed: cannot read the form_integrals / form_integral_ids / form_integral_offsets initialisers",
+                     {"form": name, "error": parsed[1]})
+        return
+    impl = {"form_integrals": parsed["form_integrals"] or [], "form_integral_ids": parsed["form_integral_ids"] or [],
+            "form_integral_offsets": parsed["form_integral_offsets"]}
+    model = {"form_integrals": mker, "form_integral_ids": mids, "form_integral_offsets": moffs}
+    if impl != model:
+        chk.disagree("emitKernels/emitIds/offsets vs the generated C initialisers", {"form": name, "model": model, "impl": impl})
+    sizes = {n: (sz, ln) for n, sz, ln in decls}
+    for arr, ln in (("form_integrals_" + fir.name, len(mker)), ("form_integral_ids_" + fir.name, len(mids)),
+                    ("form_integral_offsets_" + fir.name, len(moffs))):
+        if ln and sizes.get(arr) != (ln, ln):
+            chk.disagree("declared length of an emitted table vs the model", {"form": name, "array": arr, "declared,initialisers": sizes.get(arr), "model": ln})
+    multi = any(len(dm) > 1 for t in TYPES for dm in fir.integral_domains[t])
+    chk.case("emit-" + what, key=(f"{[len(fir.subdomain_ids[t]) for t in TYPES]}|{moffs}|{mids}" if (len(mker) >= 2 or multi) else None))
+
+
 def _prefix(counts):
     out = [0]
     for c in counts:
@@ -301,6 +416,7 @@ def _check_form_ir(chk, d, name, fd, fi, fir, iirs, state):
     idata = integral_data(fir)
     perms = [np.argsort(fir.subdomain_ids[t]) for t in TYPES]
     counts, _ = compare_intdata(chk, d, "integral_data", groups, perms, idata)
+    check_emit(chk, d, name, fir, perms)
     # ---- oracle 1: offsets delimit the emitted kernel table (independent of the model)
     emitted = sum(len(dm) for dm in idata.domains)
     want = _prefix([sum(len(r[2]) for r in g) for g in groups])
@@ -435,7 +551,14 @@ def correspond_synthetic(chk, d, state):
             sids = []
             for _ in range(L):
                 r = rng.random()
-                sids.append("otherwise" if r < 0.25 else (rng.choice([-1, -2, -5]) if r < 0.33 else rng.choice([0, 1, 2, 3, 9, 41])))
+                if r < 0.25:
+                    sids.append("otherwise")
+                elif r < 0.33:  # negative user ids, down to below -2^31
+                    sids.append(rng.choice([-1, -2, -5, -2**31 + 1, -2**31, -2**31 - 1, -2**40]))
+                elif r < 0.43:  # around the upper guard 2^31 - 1 (commit 9a772cd)
+                    sids.append(rng.choice([2**31 - 2, 2**31 - 1, 2**31, 2**31 + 1, 2**32 - 1, 2**32 + 3, 2**63]))
+                else:
+                    sids.append(rng.choice([0, 1, 2, 3, 9, 41]))
             nm = f"i{it}_{j}"
             dm = set(rng.sample(_CT, rng.choice([1, 1, 2])))
             itgs.append((t, sids, nm, _dom_tags(dm)))
@@ -461,10 +584,31 @@ def correspond_synthetic(chk, d, state):
             same = reply[0] == "error" and mcls == impl[1] and (impl[1] == "KeyError" or reply[1] == impl[2])
         if not same:
             chk.disagree("_compute_form_ir(synthetic)", {"input": itgs, "model": reply, "impl": impl})
-        flat = [s for _, ss, _, _ in itgs for s in ss]
+        flat = [s for _, ss, _, _ in itgs for s in ss if s != "otherwise"]
+        if any(s > 2**31 - 1 for s in flat):
+            chk.hist["formir-synth:has-id-above-int32"] = chk.hist.get("formir-synth:has-id-above-int32", 0) + 1
+        if any(s < 0 for s in flat):
+            chk.hist["formir-synth:has-negative-id"] = chk.hist.get("formir-synth:has-negative-id", 0) + 1
         chk.case("formir-synth", key=(f"{impl[0]}|{[(t[:3], ss) for t, ss, _, _ in itgs]}" if (len(itgs) >= 2 or impl[0] == "error") else None))
         chk.hist[f"formir-synth:{impl[0] if impl[0] == 'ok' else impl[1]}"] = chk.hist.get(f"formir-synth:{impl[0] if impl[0] == 'ok' else impl[1]}", 0) + 1
     return usable
+
+
+def correspond_emit_synthetic(chk, d, state):
+    """(f) on hand-built FormIR tuples (harness/descr_checks.synthetic_form_irs: many domains per integral, empty types, duplicate /
+    unsorted / huge ids) pushed through the REAL C form generator: its three table initialisers vs `emit*`/`offsets`."""
+    from .. import descr_checks
+
+    n = 0
+    for fir in descr_checks.synthetic_form_irs(chk.seed + 5, 80 if chk.tier == "quick" else 800):
+        if any(len({len(fir.subdomain_ids[t]), len(fir.integral_names[t]), len(fir.integral_domains[t])}) != 1 for t in TYPES):
+            continue  # deliberately inconsistent record (IndexError in integral_data): C18's business
+        if any(r > 0 and len(sh) == 0 for r, sh in zip(fir.constant_ranks, fir.constant_shapes)):
+            continue  # deliberately refers to an undefined constant_shapes array
+        perms = [np.argsort(fir.subdomain_ids[t]) for t in TYPES]
+        check_emit(chk, d, fir.name, fir, perms, what="synthetic")
+        n += 1
+    return n
 
 
 # =============================================================================== (c) + (d) compiled forms
@@ -634,7 +778,9 @@ def readback_and_sum(chk, d, state):
         ffi = mod.ffi
         lens = [int(x) for x in re.findall(r"static ufcx_integral\* form_integrals_form_[0-9a-f]+\[(\d+)\]", code[1])]
         if len(lens) != len(forms):
-            raise RuntimeError("could not read the lengths of the form_integrals tables from the generated C")
+            chk.disagree("form template changed: cannot read the lengths of the form_integrals tables from the generated C",
+                         {"tables_found": len(lens), "forms": len(forms)})
+            return
         chk.notes["compiled_forms"] = len(forms)
         chk.notes["compiled_kernels"] = sum(lens)
         for n, terms in fams:
@@ -648,6 +794,22 @@ def readback_and_sum(chk, d, state):
                 srb = _readback(chk, f"{n}/term{j}", forms[si], objs[si], ffi, lens[si], state)
                 singles.append((forms[si], objs[si], srb, lens[si]))
             offs, ids, tags = rb
+            # (f) compiled tables (cffi) vs the model's emit* for the FormIR of the same form
+            try:
+                with warnings.catch_warnings():
+                    warnings.simplefilter("ignore")
+                    _, ir1 = pipeline.compute([form])
+                fir = ir1.forms[0]
+                _, mids, moffs, mrows = model_emit(d, fir, [np.argsort(fir.subdomain_ids[t]) for t in TYPES])
+                coffs = [int(obj.form_integral_offsets[i]) for i in range(len(TYPES) + 1)]
+                if mids != ids or moffs != coffs or sorted((r[0], r[2]) for r in mrows) != sorted(zip(ids, tags)) or \
+                        [r[0] for r in mrows] != ids:
+                    chk.disagree("emitIds/offsets/emit vs the compiled ufcx_form tables (cffi read-back)",
+                                 {"family": n, "model": {"ids": mids, "offsets": moffs, "rows": [(r[0], r[2]) for r in mrows]},
+                                  "impl": {"ids": ids, "offsets": coffs, "rows": list(zip(ids, tags))}})
+                chk.case("emit-cffi", key=f"{n}|{coffs}|{ids}")
+            except Exception as ex:
+                chk.disagree("emit read-back: the FormIR of a compiled family cannot be recomputed", {"family": n, "error": repr(ex)[:200]})
             if offs is None:
                 chk.hist["sum-skipped-broken-offsets"] = chk.hist.get("sum-skipped-broken-offsets", 0) + 1
                 continue
@@ -664,16 +826,23 @@ def readback_and_sum(chk, d, state):
                 x = _coords(cellname, np.random.default_rng(chk.seed + ti), width)
                 for i in sorted(set(ids[a:b])):
                     contributing = [j for j, tm in enumerate(terms) if tm.itype == t and i in tm.idset()]
+                    # 'otherwise' integrals of this type next to the explicit id i: must NOT be folded into the kernels of i
+                    everywhere = [j for j, tm in enumerate(terms) if tm.itype == t and tm.ids is None] if i != -1 else []
+                    listed = [k for k in range(a, b) if ids[k] == i]  # ALL kernels listed under (type, id), every domain
+                    chk.hist["sum-kernels-per-id:" + str(len(listed))] = chk.hist.get("sum-kernels-per-id:" + str(len(listed)), 0) + 1
+                    if everywhere:
+                        chk.hist["sum-otherwise-coexists"] = chk.hist.get("sum-otherwise-coexists", 0) + 1
                     for tag in sorted(set(tags[a:b])):
                         rows = [k for k in range(a, b) if ids[k] == i and tags[k] == tag]
-                        worst, scale, failing = 0.0, 1.0, None
+                        worst, scale, failing, fold_gap, folded = 0.0, 1.0, None, 0.0, None
                         for ent in _entities(cellname, t, tag):
                             A = np.zeros(_asize(form, width) + 1)
                             w, c = _pack(obj, form, width, values, cvalues)
                             for k in rows:  # applied one after another to the SAME A
                                 pipeline.call_kernel(mod, obj.form_integrals[k], "float64", A, w, c, x, entity=ent, perm=[0, 0])
                             E = np.zeros_like(A)
-                            for j in contributing:
+                            F = np.zeros_like(A)  # what folding the 'otherwise' integrals in would add
+                            for j in contributing + everywhere:
                                 sf, so, srb, sl = singles[j]
                                 sw, sc = _pack(so, sf, width, values, cvalues)
                                 for k in range(sl):
@@ -681,38 +850,59 @@ def readback_and_sum(chk, d, state):
                                         T = np.zeros_like(A)
                                         pipeline.call_kernel(mod, so.form_integrals[k], "float64", T, sw, sc, x, entity=ent, perm=[0, 0])
                                         scale = max(scale, float(np.max(np.abs(T))))
-                                        E += T
+                                        if j in contributing:
+                                            E += T
+                                        else:
+                                            F += T
                             err = float(np.max(np.abs(A - E)))
                             if err > worst:
                                 worst, failing = err, {"entity": ent, "A": A[:8].tolist(), "sum_of_singles": E[:8].tolist()}
+                            if everywhere:
+                                fold_gap = max(fold_gap, float(np.max(np.abs(F))))
+                                if float(np.max(np.abs(F))) > 1e-9 * scale and float(np.max(np.abs(A - (E + F)))) <= 1e-12 * scale < err:
+                                    folded = {"entity": ent, "A": A[:8].tolist(), "declared_for_id": E[:8].tolist(), "with_everywhere_folded_in": (E + F)[:8].tolist()}
                         mds = {terms[j].md for j in contributing}
+                        if folded is not None:
+                            _viol(chk, f"sum:otherwise-folded:{n}:{t}:{i}", "the kernels listed under an explicit id also add the 'everywhere' integrals "
+                                  "(an 'otherwise' integral is folded into an explicit id)", {"family": n, "ufl": str(form)[:400], "type": t, "id": i,
+                                                                                               "domain_tag": tag, "everywhere_terms": everywhere, **folded})
+                        elif everywhere and fold_gap > 1e-9 * scale:
+                            # the oracle distinguishes "declared for id" from "declared for id + everywhere" on this case
+                            chk.case("otherwise-not-folded", key=f"{n}|{t}|{i}|{tag}")
                         if not np.isfinite(worst) or worst > 1e-12 * scale:
                             key = f"sum:quadrature-metadata:{n}" if len(mds) > 1 else f"sum:dispatch:{n}:{t}:{i}"
                             _viol(chk, key, "kernels listed under (type,id), applied in order, do not add up to the sum of the "
                                           "separately compiled integrands declared for that id",
                                           {"family": n, "ufl": str(form)[:400], "type": t, "id": i, "domain_tag": tag, "rows": rows,
                                            "terms": contributing, "metadata": [dict(m) for m in mds], "max_abs_err": worst, "scale": scale, **(failing or {})})
-                        chk.case("summation", key=f"{n}|{t}|{i}|{tag}|rows{len(rows)}|terms{len(contributing)}",
-                                 sample={"family": n, "type": t, "id": i, "rows": len(rows), "terms": len(contributing), "err": worst})
-                        chk.hist["sum-kernels-per-id:" + str(len(rows))] = chk.hist.get("sum-kernels-per-id:" + str(len(rows)), 0) + 1
+                        chk.case("summation", key=f"{n}|{t}|{i}|{tag}|rows{len(rows)}of{len(listed)}|terms{len(contributing)}",
+                                 sample={"family": n, "type": t, "id": i, "rows": len(rows), "listed_under_id": len(listed),
+                                         "terms": len(contributing), "err": worst})
 
 
 def probe_negative_ids(chk, d):
-    """user ids < 0 (alone, in tuples, next to 'everywhere') must be rejected; the search key for an accepted
-    explicit -1 stays armed"""
+    """user ids < 0 (alone, in tuples, next to 'everywhere') and user ids > 2^31-1 (commit 9a772cd) must be rejected, the boundary
+    id 2^31-1 accepted; the search keys for an accepted explicit -1 / too large id stay armed"""
     m, V = corpus.space("triangle", "P", 1)
     u, v = ufl.TrialFunction(V), ufl.TestFunction(V)
     f = ufl.Coefficient(V)
+    B = 2**31
     cases = [
-        ("dx(-1)+dx", lambda: u * v * ufl.dx(-1) + f * u * v * ufl.dx, [-1]),
-        ("dx(-1)", lambda: u * v * ufl.dx(-1), [-1]),
-        ("ds((2,-1))", lambda: u * v * ufl.ds((2, -1)) + u * v * ufl.dx, [2, -1]),
-        ("dx(-2)", lambda: u * v * ufl.dx(-2), [-2]),
-        ("dS((0,-7))", lambda: u("+") * v("-") * ufl.dS((0, -7)), [0, -7]),
+        ("dx(-1)+dx", lambda: u * v * ufl.dx(-1) + f * u * v * ufl.dx, [-1], False),
+        ("dx(-1)", lambda: u * v * ufl.dx(-1), [-1], False),
+        ("ds((2,-1))", lambda: u * v * ufl.ds((2, -1)) + u * v * ufl.dx, [2, -1], False),
+        ("dx(-2)", lambda: u * v * ufl.dx(-2), [-2], False),
+        ("dS((0,-7))", lambda: u("+") * v("-") * ufl.dS((0, -7)), [0, -7], False),
+        ("dx(-2^31)", lambda: u * v * ufl.dx(-B), [-B], False),
+        ("dx(2^31-1)", lambda: u * v * ufl.dx(B - 1), [B - 1], True),
+        ("dx(2^31)", lambda: u * v * ufl.dx(B), [B], False),
+        ("ds((1,2^31+5))+dx", lambda: u * v * ufl.ds((1, B + 5)) + u * v * ufl.dx, [1, B + 5], False),
+        ("dx(2^32)", lambda: u * v * ufl.dx(2**32), [2**32], False),
+        ("dx((2^31,-3))", lambda: u * v * ufl.dx((B, -3)), [-3, B], False),
     ]
-    for name, build, sids in cases:
-        form = build()
+    for name, build, sids, legit in cases:
         try:
+            form = build()
             with warnings.catch_warnings():
                 warnings.simplefilter("ignore")
                 an, ir = pipeline.compute([form])
@@ -722,15 +912,22 @@ def probe_negative_ids(chk, d):
         model = d.ask(f"(formir ((cell {sx(sids)} k (2))))")
         if accepted:
             if model[0] != "ok":
-                chk.disagree("_compute_form_ir accepts a negative id", {"form": name, "model": model})
+                chk.disagree("_compute_form_ir accepts an id the model rejects", {"form": name, "model": model})
             listed = {t: [int(i) for i in ir.forms[0].subdomain_ids[t]] for t in TYPES if ir.forms[0].subdomain_ids[t]}
-            key = KEY_MINUS_ONE if -1 in sids else f"formir:negative-id-accepted:{name}"
-            _viol(chk, key, "an explicit negative subdomain id is accepted" + (" and its kernel is listed in the 'everywhere' slot -1" if -1 in sids else ""),
-                  {"form": name, "ufl": str(form)[:300], "subdomain_ids": listed})
+            if not legit:
+                big = any(s > B - 1 for s in sids)
+                key = KEY_MINUS_ONE if -1 in sids else (f"formir:id-above-int32-accepted:{name}" if big else f"formir:negative-id-accepted:{name}")
+                _viol(chk, key, ("an explicit subdomain id above 2^31-1 is accepted (form_integral_ids is an array of C int: the id wraps)" if big and -1 not in sids
+                                 else "an explicit negative subdomain id is accepted" + (" and its kernel is listed in the 'everywhere' slot -1" if -1 in sids else "")),
+                      {"form": name, "ufl": str(form)[:300], "subdomain_ids": listed})
+            elif listed != {"cell": sids}:
+                _viol(chk, f"formir:boundary-id:{name}", "the largest representable subdomain id is not listed unchanged", {"form": name, "subdomain_ids": listed})
         else:
+            if legit:
+                _viol(chk, f"formir:boundary-id-rejected:{name}", "the largest id that fits a C int is rejected", {"form": name, "message": msg})
             if model[0] != "error" or model[1] != msg:
                 chk.disagree("_compute_form_ir rejection", {"form": name, "model": model, "impl": msg})
-        chk.case("negative-id", key=f"{name}|{'accepted' if accepted else 'rejected'}")
+        chk.case("negative-id" if any(x < 0 for x in sids) else "large-id", key=f"{name}|{'accepted' if accepted else 'rejected'}")
 
 
 def named_objects(chk):
@@ -749,11 +946,15 @@ def named_objects(chk):
     src = code[1]
     cn = re.search(r"coefficient_names_form_\w+\[(\d+)\] = \{([^}]*)\}", src)
     kn = re.search(r"constant_names_form_\w+\[(\d+)\] = \{([^}]*)\}", src)
+    pm = re.search(r"original_coefficient_position_form_\w+\[\d+\] = \{([^}]*)\}", src)
+    if pm is None:
+        chk.disagree("form template changed: cannot read original_coefficient_position", {"case": "named-objects"})
+        return
     got = {
         "coefficient_names": [x.strip().strip('"') for x in cn.group(2).split(",")] if cn else [],
         "constant_names": [x.strip().strip('"') for x in kn.group(2).split(",")] if kn else [],
         "alias": bool(re.search(r"ufcx_form\* form_ns_residual = &form_", src)),
-        "positions": [int(x) for x in re.search(r"original_coefficient_position_form_\w+\[\d+\] = \{([^}]*)\}", src).group(1).split(",")],
+        "positions": [int(x) for x in pm.group(1).split(",")],
     }
     # expected from the UFL form: reduced coefficients (f, h) at original positions 0 and 2; constants by count
     kexp = ["beta" if q is k2 else f"c{j}" for j, q in enumerate(F.constants())]
@@ -789,7 +990,11 @@ def named_objects(chk):
             fname = mm.group(1)
             cn = re.search(r"coefficient_names_%s\[\d+\] = \{([^}]*)\}" % fname, src)
             kn = re.search(r"constant_names_%s\[\d+\] = \{([^}]*)\}" % fname, src)
-            body = src[src.index("ufcx_form %s =" % fname):]
+            at = src.find("ufcx_form %s =" % fname)
+            if at < 0:
+                chk.disagree("form template changed: cannot read the ufcx_form struct", {"case": "named-objects", "form": fname})
+                continue
+            body = src[at:]
             rk = re.search(r"\.rank = (\d+)", body)
             got = ([x.strip().strip('"') for x in cn.group(1).split(",")] if cn else [],
                    [x.strip().strip('"') for x in kn.group(1).split(",")] if kn else [], int(rk.group(1)) if rk else None)
@@ -834,7 +1039,7 @@ def run(chk):
 
         tm = {}
         for nm, fn in (("correspond_real", correspond_real), ("correspond_synthetic", correspond_synthetic),
-                       ("readback_and_sum", readback_and_sum)):
+                       ("correspond_emit_synthetic", correspond_emit_synthetic), ("readback_and_sum", readback_and_sum)):
             t0 = time.time()
             fn(chk, d, state)
             tm[nm] = round(time.time() - t0, 1)
